@@ -93,7 +93,14 @@ def true_div_ints(interp, a, b):
         raise Undecided("int / symbolic int (non-linear)")
     if b == 0:
         raise PyRaise(ZeroDivisionError)
-    return rounded(interp, z3.ToReal(zint(a)) / z3.RealVal(b), "int/int")
+    res = rounded(interp, z3.ToReal(zint(a)) / z3.RealVal(b), "int/int")
+    if isinstance(b, int) and not isinstance(b, bool) and 0 < abs(b) <= 2 ** 53 and not isinstance(a, int):
+        # a correctly rounded operation returns its exact result when that is representable, and every integer
+        # of magnitude <= 2^53 is (`exact_small_int`): b | a and |a / b| <= 2^53  =>  the quotient is exact
+        za = zint(a)
+        interp.ctx.assume(z3.Implies(z3.And(za % b == 0, za <= 2 ** 53 * abs(b), za >= -(2 ** 53) * abs(b)),
+                                     res.r == z3.ToReal(za) / z3.RealVal(b)))
+    return res
 
 
 def total_seconds(interp, us):
